@@ -1,0 +1,198 @@
+//go:build verif
+
+package json
+
+// Verification hooks (build tag "verif"): a sanitizer for the three object
+// pools of this package (decodeState, encodeState, scanner).
+//
+// Every Get/Put is reported, an ownership table detects states that are
+// acquired while owned or released while unowned, and two adversarial modes
+// act on a state just before it goes back to its pool:
+//
+//   - poison: the state is put through a real, unrelated, hostile use (what
+//     the next user of the pool may have done to it before we get it again);
+//   - fresh: the state is zeroed (what sync.Pool does when it drops an item
+//     and calls New).
+//
+// Correct code cannot depend on either, so neither mode can raise an alarm on
+// correct code.
+
+import (
+	"fmt"
+	"runtime"
+	"strings"
+	"sync"
+	"sync/atomic"
+)
+
+const (
+	VerifModeOff int32 = iota
+	VerifModePoison
+	VerifModeFresh
+)
+
+// VerifPoolMode selects the sanitizer mode; set it before any call.
+var VerifPoolMode atomic.Int32
+
+// VerifYield, if non-nil, is called at the points where goroutines meet
+// (pool acquisition, type-cache publication). Set it before starting goroutines.
+var VerifYield func(site int)
+
+const (
+	verifSiteAcquireDec = iota
+	verifSiteAcquireEnc
+	verifSiteAcquireScan
+	verifSiteTypeEncoder
+	verifSiteTypeFields
+
+	VerifSites = 5
+)
+
+type VerifPoolCounters struct {
+	AcqDec, RelDec, AcqEnc, RelEnc, AcqScan, RelScan atomic.Int64
+	InFlight, MaxInFlight                            atomic.Int64
+	Poisoned, Freshened                              atomic.Int64
+	Errors                                           atomic.Int64
+}
+
+var VerifPool VerifPoolCounters
+
+var (
+	verifOwned  sync.Map // pointer -> struct{}
+	verifSeen   sync.Map // pointer -> struct{} (distinct pooled states)
+	verifErrMu  sync.Mutex
+	verifErrors []string
+)
+
+// VerifPoolErrors returns (and keeps) the ownership violations seen so far.
+func VerifPoolErrors() []string {
+	verifErrMu.Lock()
+	defer verifErrMu.Unlock()
+	return append([]string(nil), verifErrors...)
+}
+
+// VerifDistinctStates is the number of distinct pooled objects seen.
+func VerifDistinctStates() int {
+	n := 0
+	verifSeen.Range(func(_, _ any) bool { n++; return true })
+	return n
+}
+
+func verifError(what string, p any) {
+	VerifPool.Errors.Add(1)
+	buf := make([]byte, 4096)
+	buf = buf[:runtime.Stack(buf, false)]
+	verifErrMu.Lock()
+	if len(verifErrors) < 20 {
+		verifErrors = append(verifErrors, fmt.Sprintf("%s %T %p\n%s", what, p, p, buf))
+	}
+	verifErrMu.Unlock()
+}
+
+func verifAcquire(p any) {
+	if _, loaded := verifOwned.LoadOrStore(p, struct{}{}); loaded {
+		verifError("pooled state acquired while still owned", p)
+	}
+	verifSeen.LoadOrStore(p, struct{}{})
+	n := VerifPool.InFlight.Add(1)
+	for {
+		m := VerifPool.MaxInFlight.Load()
+		if n <= m || VerifPool.MaxInFlight.CompareAndSwap(m, n) {
+			break
+		}
+	}
+}
+
+func verifRelease(p any) bool {
+	if _, loaded := verifOwned.LoadAndDelete(p); !loaded {
+		verifError("pooled state released while not owned", p)
+		return false
+	}
+	VerifPool.InFlight.Add(-1)
+	return true
+}
+
+func verifYield(site int) {
+	if f := VerifYield; f != nil {
+		f(site)
+	}
+}
+
+var verifPoisonDoc = []byte(`{"\u0000verif-poison-1":{"x":[1,2,{"y":null}]},"verif-poison-2":[true,"s"],"verif-poison-3":1e999}`)
+var verifPoisonBad = []byte(`[[[[[[{"a":[1,2,{"b":tru`)
+
+func verifAcquireDec(d *decodeState) {
+	VerifPool.AcqDec.Add(1)
+	verifAcquire(d)
+	verifYield(verifSiteAcquireDec)
+}
+
+func verifReleaseDec(d *decodeState) {
+	VerifPool.RelDec.Add(1)
+	if !verifRelease(d) {
+		return
+	}
+	switch VerifPoolMode.Load() {
+	case VerifModeFresh:
+		VerifPool.Freshened.Add(1)
+		*d = decodeState{}
+	case VerifModePoison:
+		VerifPool.Poisoned.Add(1)
+		func() {
+			defer func() { recover() }()
+			// an unrelated successful decode (sets lastKeys, offsets, scanner state) ...
+			var m map[string]any
+			d.init(verifPoisonDoc)
+			_ = d.unmarshal(&m)
+			// ... followed by a failed one, as a rejected Unmarshal leaves it
+			_ = checkValid(verifPoisonBad, &d.scan)
+			d.savedError = &UnmarshalTypeError{Value: "verif-poison"}
+			d.errorContext = &errorContext{FieldStack: []string{"verif-poison"}}
+		}()
+	}
+}
+
+func verifAcquireEnc(e *encodeState) {
+	VerifPool.AcqEnc.Add(1)
+	verifAcquire(e)
+	verifYield(verifSiteAcquireEnc)
+}
+
+func verifReleaseEnc(e *encodeState) {
+	VerifPool.RelEnc.Add(1)
+	if !verifRelease(e) {
+		return
+	}
+	switch VerifPoolMode.Load() {
+	case VerifModeFresh:
+		VerifPool.Freshened.Add(1)
+		*e = encodeState{ptrSeen: make(map[any]struct{})}
+	case VerifModePoison:
+		VerifPool.Poisoned.Add(1)
+		// what the next user does: Reset and write its own output over the buffer
+		n := e.Cap()
+		e.Reset()
+		e.WriteString(strings.Repeat("Z", n))
+	}
+}
+
+func verifAcquireScan(s *scanner) {
+	VerifPool.AcqScan.Add(1)
+	verifAcquire(s)
+	verifYield(verifSiteAcquireScan)
+}
+
+func verifReleaseScan(s *scanner) {
+	VerifPool.RelScan.Add(1)
+	if !verifRelease(s) {
+		return
+	}
+	switch VerifPoolMode.Load() {
+	case VerifModeFresh:
+		VerifPool.Freshened.Add(1)
+		*s = scanner{}
+	case VerifModePoison:
+		VerifPool.Poisoned.Add(1)
+		_ = checkValid(verifPoisonBad, s)
+	}
+}
